@@ -1,6 +1,7 @@
 package main
 
 import (
+	"os"
 	"fmt"
 	"go/token"
 	"go/types"
@@ -145,12 +146,20 @@ func checkC19(c *Ctx) {
 		ok := okLine
 		if ok {
 			ok = len(decConsts) == 2 && decConsts[sep] && decConsts[term] && sep != term
+			fieldsOK, fieldsWhy := false, ""
+			if !ok && sep != term {
+				// the same question asked of the behaviour instead of the comparisons' spelling
+				fieldsOK, fieldsWhy = decoderFields(c, rac, sep, term)
+			}
 			var ks []string
 			for k := range decConsts {
 				ks = append(ks, fmt.Sprintf("%q", string(rune(k))))
 			}
 			sort.Strings(ks)
-			why = fmt.Sprintf("encoder uses separator %q terminator %q; the decoder compares source bytes with %s", string(rune(sep)), string(rune(term)), strings.Join(ks, ", "))
+			why = fmt.Sprintf("encoder uses separator %q terminator %q; the decoder compares source bytes with %s; %s", string(rune(sep)), string(rune(term)), strings.Join(ks, ", "), fieldsWhy)
+			if fieldsOK {
+				ok = true
+			}
 			// one record per call: once the terminator comparison succeeds, no further read is reachable in that function
 			for _, cc := range cmps {
 				if cc.k != term {
@@ -321,9 +330,8 @@ func checkC19(c *Ctx) {
 // separator, []byte -> ([]byte, error) for the text after it — are interpreted abstractly on the decimal text of a
 // symbolic int32 (whole range) and on the hex text of a symbolic payload of any length >= 1: every path must return the
 // original value and a nil error.
-func conversionsInvert(c *Ctx, rule string, scope []*ssa.Function, hexLower bool) {
-	p := c.P
-	var convDelta, convHex []*ssa.Function
+// decoderConversions: the decoder's two conversion helpers by role: []byte -> (int32, error) and []byte -> ([]byte, error).
+func decoderConversions(p *Program, scope []*ssa.Function) (convDelta, convHex []*ssa.Function) {
 	for _, f := range scope {
 		sig := f.Signature
 		if sig.Recv() != nil || sig.Params().Len() != 1 || sig.Results().Len() != 2 || !isErrorType(sig.Results().At(1).Type()) {
@@ -340,6 +348,91 @@ func conversionsInvert(c *Ctx, rule string, scope []*ssa.Function, hexLower bool
 			convHex = append(convHex, f)
 		}
 	}
+	return
+}
+
+// decoderFields: ReadAndConvert is interpreted on "<2 digits><sep><4 hex letters><term>" followed by a second record, with
+// the two conversion helpers observed: the time-stamp conversion must be handed exactly the two digits and the data
+// conversion exactly the four hex characters — the decoder splits the line at the encoder's separator and ends it at the
+// encoder's terminator, however its scanning loop is written.
+func decoderFields(c *Ctx, rac *ssa.Function, sep, term int64) (bool, string) {
+	p := c.P
+	convDelta, convHex := decoderConversions(p, p.Reachable(rac))
+	if len(convDelta) != 1 || len(convHex) != 1 {
+		return false, "conversion helpers of the decoder not uniquely resolved"
+	}
+	ex := NewExec(p)
+	ex.Unroll = 16
+	st := ex.NewState()
+	var elems []Val
+	var f1, f2 []Val
+	for i := 0; i < 2; i++ {
+		sy := ex.syms.Get(fmt.Sprintf("d%d", i), 8, false)
+		st.refineSym(sy, '0', '9')
+		f1 = append(f1, mkSym(sy))
+	}
+	for i := 0; i < 4; i++ {
+		sy := ex.syms.Get(fmt.Sprintf("h%d", i), 8, false)
+		st.refineSym(sy, 'A', 'F')
+		f2 = append(f2, mkSym(sy))
+	}
+	elems = append(elems, f1...)
+	elems = append(elems, mkConst(sep, 8, false))
+	elems = append(elems, f2...)
+	elems = append(elems, mkConst(term, 8, false))
+	for _, ch := range []byte("7") {
+		elems = append(elems, mkConst(int64(ch), 8, false))
+	}
+	elems = append(elems, mkConst(sep, 8, false))
+	for _, ch := range []byte("903C40") {
+		elems = append(elems, mkConst(int64(ch), 8, false))
+	}
+	elems = append(elems, mkConst(term, 8, false))
+	nD, nH := 0, 0
+	why := ""
+	same := func(st *State, v Val, want []Val) bool {
+		sl, _ := v.(*SliceV)
+		if sl == nil {
+			return false
+		}
+		got, ok := ex.sliceSegs(st, sl)
+		return ok && segsEqual(st.dropEmptyRuns(got), []Seg{{Elems: want}}, st.sameVal)
+	}
+	ex.CallHook = func(ex *Exec, st *State, fr *Frame, call ssa.CallInstruction, callee *ssa.Function, args []Val) ([]callRes, bool) {
+		if callee == convDelta[0] && len(args) == 1 {
+			nD++
+			if !same(st, args[0], f1) {
+				why = "the time-stamp conversion is handed " + valString(args[0]) + " instead of the text before the separator"
+			}
+		}
+		if callee == convHex[0] && len(args) == 1 {
+			nH++
+			if !same(st, args[0], f2) {
+				why = "the data conversion is handed " + valString(args[0]) + " instead of the text between separator and terminator"
+			}
+		}
+		return nil, false
+	}
+	src := ex.mkBytes(st, "src", elems, false, 0)
+	outs := ex.Call(st, rac, []Val{ex.readerOver(st, src)}, nil)
+	if ex.Budget || len(outs) == 0 {
+		return false, "abstract interpretation of ReadAndConvert did not complete"
+	}
+	for u := range ex.Unsupported {
+		return false, "unmodelled construct: " + u
+	}
+	if why != "" {
+		return false, why
+	}
+	if nD == 0 || nH == 0 {
+		return false, fmt.Sprintf("on a well-formed line the conversions are not both reached (time stamp: %d, data: %d)", nD, nH)
+	}
+	return true, ""
+}
+
+func conversionsInvert(c *Ctx, rule string, scope []*ssa.Function, hexLower bool) {
+	p := c.P
+	convDelta, convHex := decoderConversions(p, scope)
 	if len(convDelta) != 1 || len(convHex) != 1 {
 		c.Unk(rule, "conversion helpers of the decoder (roles: []byte -> (int32, error), []byte -> ([]byte, error))", "-", fmt.Sprintf("not uniquely resolved (%d / %d candidates)", len(convDelta), len(convHex)))
 		return
@@ -823,6 +916,11 @@ func lineConsumption(c *Ctx, rule string, rac *ssa.Function, sep, term byte) {
 			}
 			if !found {
 				ok, why = false, "source reader not tracked"
+			}
+		}
+		if os.Getenv("ABSDEBUG") != "" {
+			for _, o := range outs {
+				fmt.Fprintf(os.Stderr, "C19.7 %s: ret=%v panic=%v\n", cl.name, o.Ret, o.Panic)
 			}
 		}
 		c.Check(ok, rule, key, p.Pos(rac.Pos()), fmt.Sprintf("%d outcome(s): nothing beyond the first line (%d bytes) consumed; the successful ones consumed exactly the line", len(outs), first), why)
